@@ -42,6 +42,9 @@ def req_pattern(name, n):
         return {i: (5 * (i // 2) + 2 + i % 2) for i in range(min(n, 8))}
     if name == "interleaved":
         return {i: 2 * i + 1 for i in range(0, min(n, 100), 3)}
+    if name == "half":
+        # every second variable requests an id, from 255 downwards: MANY requested ids beside many automatic ones
+        return {i: 255 - i // 2 for i in range(0, n, 2) if i // 2 < 256}
     if name == "dup":
         return {0: 9, n - 1: 9} if n > 1 else {0: 9}
     raise AssertionError(name)
@@ -286,7 +289,7 @@ def run(tier):
             rb.Cfg(10, "A"), rb.Cfg(10, "A", scratch_slots=False)]
     items = []
     for n in ns:
-        for req in ("none", "zero", "top", "both", "low_block", "mid_block", "high_block", "pairs", "interleaved", "dup"):
+        for req in ("none", "zero", "top", "both", "low_block", "mid_block", "high_block", "pairs", "interleaved", "half", "dup"):
             for placement in ("main", "split1", "split2", "shared"):
                 for kind in ("scratchvar", "dyn"):
                     if kind == "dyn" and placement != "main":
